@@ -5,7 +5,16 @@ import (
 	"fmt"
 	"github.com/aml-org/amf-custom-validator/internal/misc"
 	"github.com/aml-org/amf-custom-validator/internal/parser/profile"
+	"strings"
 )
+
+// patternLiteral writes the pattern as a raw string, as long as a raw string can hold it
+func patternLiteral(pattern string) string {
+	if strings.ContainsAny(pattern, "`\r") {
+		return misc.RegoString(pattern)
+	}
+	return "`" + pattern + "`"
+}
 
 func GeneratePattern(pattern profile.PatternRule, iriExpander *misc.IriExpander) []SimpleRegoResult {
 	path := pattern.Path
@@ -17,9 +26,9 @@ func GeneratePattern(pattern profile.PatternRule, iriExpander *misc.IriExpander)
 	rego = append(rego, fmt.Sprintf("%s = %s_array[_]", checkVariable, checkVariable))
 	// Add the validation
 	if pattern.Negated {
-		rego = append(rego, fmt.Sprintf("regex.match(`%s`,%s)", pattern.Argument, checkVariable))
+		rego = append(rego, fmt.Sprintf("regex.match(%s,%s)", patternLiteral(pattern.Argument), checkVariable))
 	} else {
-		rego = append(rego, fmt.Sprintf("not regex.match(`%s`,%s)", pattern.Argument, checkVariable))
+		rego = append(rego, fmt.Sprintf("not regex.match(%s,%s)", patternLiteral(pattern.Argument), checkVariable))
 	}
 
 	tracePath, err := pattern.Path.Trace(iriExpander)
